@@ -7,6 +7,7 @@ Property theorems for C08 (statements are printed by `#check`, axioms by `#check
 #check @Registry.debounce_registry
 #check @Registry.threshold_registry
 #check @Registry.schmitt_registry_correct
+#check @Registry.debounce_registry_correct
 #print axioms`;
 `bin/check C08` re-elaborates this file on every run and audits the axiom lists).
 -/
@@ -25,3 +26,4 @@ open SignaloModel
 #print axioms Registry.debounce_registry
 #print axioms Registry.threshold_registry
 #print axioms Registry.schmitt_registry_correct
+#print axioms Registry.debounce_registry_correct
